@@ -14,6 +14,8 @@ CONTRACTS = {
     "reset.dir": {"kind": "external", "params": {"cls": "py"}, "returns": "Seq[Str]", "pure_result": "g_rdir", "ensures": {"names": "len(result) >= 0"},
                   "note": "dir(cls): every attribute name of the class, inherited ones included (reflection)"},
     "reset.getattr_cls": {"kind": "external", "params": {"cls": "py", "name": "Str"}, "returns": "Ref:Marker", "ensures": {"class attribute": "result is rattr(name)"}, "note": "getattr(cls, n) (reflection)"},
+    "will_reset_to.__init__": {"receivers": ["Marker"], "source": "will_reset_to.__init__", "ctor": True, "params": {"default": "Ref:PyObj"}, "modifies": ["self.default"],
+                               "ensures": {"C10.M0 a marker remembers the declared default (the very object)": "self.default is default"}},
     "collect_resets": {
         "params": {"cls": "py"}, "returns": "Map[Str,Ref:PyObj]", "local_sorts": {"result": "Map[Str,Ref:PyObj]"}, "modifies": [],
         "requires": {"markers are objects": "forall(n, Str, implies(is_marker(n), rattr(n) is not None))"},
